@@ -44,8 +44,6 @@ Left open by the documentation, hence "unspec":
   * `Infinity` and friends (float()/complex() accept it, the docs list only `Inf`)
   * inf/nan written in the wrong case inside a complex literal (`1+infj`)
   * bare `j` / `J` (complex("j") == 1j, but it is plainly a variable name)
-  * a separator directly after `.` that is also before the first digit (`._5`:
-    "may be after `.`" against "before the first digit are forbidden")
   * a separator after a sign that follows the first digit (`1e+_5`, `1+_5j`:
     not among the listed places, not before the first digit either)
   * separators in a text without any ASCII digit (`Inf_`, `N_aN`)
@@ -184,10 +182,11 @@ def classify(s):
         if first_digit is None:
             continue
         if k < first_digit:
-            if p == ".":
-                conflict = True          # "after ." vs "before the first digit"
-            else:
-                forbidden = True
+            # "Separators before the first digit are still forbidden" is stated without
+            # exception (the "still" makes it the exception to the permissive list that
+            # includes "after `.`"), and its rationale applies: `._5` is a legal dotted
+            # identifier (the attribute `_5`), as `_1` is a legal variable name
+            forbidden = True
         else:
             if p in DIGITS or p in ".eEjJxXoObB" or (is_hex and p in "abcdefABCDEF"):
                 pass
